@@ -1323,6 +1323,8 @@ fn c19_build(cfg: &[u16]) -> Built {
         (K::Away, 4),
         (K::Kill, 3),
         (K::CapPost, 2),
+        // channel modes (a secret channel is a channel all the same)
+        (K::ModeChan, 6),
         // connections that are open but not (yet) registered are no users and no clients
         (K::RawConnect, 4),
         (K::RegLine, 6),
